@@ -1,19 +1,22 @@
 (* M for C19: transcription of
      ttconv/tt.py            FileTypes.get_file_type, read_config_from_json, convert (option handling), main
-     ttconv/config.py        ModuleConfiguration.validate / parse, GeneralConfiguration
+     ttconv/config.py        ModuleConfiguration.validate / parse, decode_bool, GeneralConfiguration
      ttconv/imsc/config.py   parse_time_expression_syntax, IMSCWriterConfiguration.FractionDecoder
      ttconv/scc/config.py    TextAlignment.from_value
      ttconv/stl/config.py    _decode_font_stack (acceptance), _decode_start_tc, _decode_max_row_count
-     ttconv/srt/config.py, ttconv/vtt/config.py   (decoder = bool)
+     ttconv/srt/config.py, ttconv/vtt/config.py   (decoder = decode_bool)
      ttconv/filters/doc/lcd.py   _safe_area_decoder, _color_decoder (ttconv/utils.py parse_color)
      ttconv/filters/document_filter.py   DocumentFilter.get_filter_by_name
    over an abstract JSON value type.  `plan` maps (argv, inline --config, --config_file) to what `tt` does:
    an error (Python exception class / exit), the usage text, or the conversion plan
    reader+configuration, document language, filters+configurations in order, writer+configuration.
 
-   CPython primitives the decoders lean on are transcribed too (int() on str/float/bool, str.lower/upper on the
-   characters that can reach an ASCII literal, re's \s \d ., str.split, Fraction normalisation, truthiness,
-   posixpath.splitext, logging._checkLevel); their character tables are regenerated (Gen/CliUnicode.v).
+   CPython primitives the decoders lean on are transcribed too (int() on ASCII digit strings with its digit limit,
+   str.lower/upper on the characters that can reach an ASCII literal, re's \s \d under re.ASCII and `.`, str.split,
+   Fraction normalisation, posixpath.splitext, logging._checkLevel); their character tables are regenerated
+   (Gen/CliUnicode.v).
+   `plan_tokens` / `run_tokens` start from the raw token list: argparse as far as `tt` uses it (parse_main), then the
+   plan or, with the readers, filters and writers as section variables, the run with its log of effects.
    No proofs in this file. *)
 From Coq Require Import String.
 From TT Require Import Base.Prelude Base.CliTypes Gen.CliUnicode.
@@ -67,76 +70,26 @@ Definition py_lower (s : text) : text :=
 Definition py_upper (s : text) : text :=
   flat_map (fun c => if c <? 128 then [ascii_upper c] else match assocZ c upper_ascii with Some i => i | None => [c] end) s.
 
-(* decimal digit value of a code point (Py_UNICODE_TODECIMAL; also re's \d) *)
-Fixpoint digit_in (zs : list Z) (c : Z) : option Z :=
-  match zs with [] => None | z0 :: r => if (z0 <=? c) && (c <=? z0 + 9) then Some (c - z0) else digit_in r c end.
-Definition dec_digit (c : Z) : option Z := digit_in dec_zeros c.
-Definition is_re_digit (c : Z) : bool := match dec_digit c with Some _ => true | None => false end.
-Definition is_re_space (c : Z) : bool := mem c re_spaces.
-Definition is_int_space (c : Z) : bool := mem c int_spaces.
 Definition re_dot (c : Z) : bool := negb (mem c re_dot_excluded).       (* `.` without DOTALL *)
-Definition is_d (c : Z) : bool := (48 <=? c) && (c <=? 57).               (* [0-9] *)
+Definition is_d (c : Z) : bool := (48 <=? c) && (c <=? 57).               (* [0-9]; also \d under re.ASCII *)
+Definition is_ascii_space (c : Z) : bool := mem c re_ascii_spaces.        (* \s under re.ASCII *)
 Definition hexval (c : Z) : option Z :=
   if is_d c then Some (c - 48) else if (65 <=? c) && (c <=? 70) then Some (c - 55)
   else if (97 <=? c) && (c <=? 102) then Some (c - 87) else None.
 
-(* int(str): non-ASCII spaces -> ' ', non-ASCII decimal digits -> ASCII digits, anything else non-ASCII -> '?';
-   then [spaces] [sign] digits with single underscores between digits [spaces]; more than
-   sys.get_int_max_str_digits() digits -> ValueError *)
-Definition int_xform (c : Z) : Z :=
-  if c <? 127 then c else if is_int_space c then 32 else match dec_digit c with Some d => 48 + d | None => 63 end.
-Fixpoint scan_num (s : text) (acc nd : Z) (prev_us : bool) : option (Z * Z * text) :=
-  match s with
-  | c :: r => if c =? 95 then (if prev_us then None else scan_num r acc nd true)
-              else if is_d c then scan_num r (acc * 10 + (c - 48)) (nd + 1) false
-              else if prev_us then None else Some (acc, nd, s)
-  | [] => if prev_us then None else Some (acc, nd, [])
-  end.
-Definition int_sign (s : text) : bool * text :=
-  match s with 45 :: r => (true, r) | 43 :: r => (false, r) | _ => (false, s) end.
-Definition leading_underscore (s : text) : bool := match s with 95 :: _ => true | _ => false end.
-Definition py_int_of_text (s0 : text) : res Z :=
-  let s := skip is_int_space (List.map int_xform s0) in
-  let (neg, s) := int_sign s in
-  if leading_underscore s then Raise EValue
-  else match scan_num s 0 0 false with
-       | None => Raise EValue
-       | Some (v, nd, rest) =>
-           if nd =? 0 then Raise EValue
-           else if int_max_str_digits <? nd then Raise EValue
-           else match skip is_int_space rest with
-                | [] => Ok (if neg then - v else v)
-                | _ => Raise EValue
-                end
-       end.
-(* int(x) for a JSON value *)
-Definition py_int (v : json) : res Z :=
-  match v with
-  | JNull => Raise EType
-  | JBool b => Ok (if b then 1 else 0)
-  | JInt z => Ok z
-  | JFloat n d => Ok (Z.quot n d)
-  | JFloatSpecial k => if k =? 0 then Raise EValue else Raise EOverflow
-  | JStr s => py_int_of_text s
-  | JArr _ | JObj _ => Raise EType
-  end.
-(* bool(x) *)
-Definition truthy (v : json) : bool :=
-  match v with
-  | JNull => false
-  | JBool b => b
-  | JInt z => negb (z =? 0)
-  | JFloat n _ => negb (n =? 0)
-  | JFloatSpecial _ => true
-  | JStr s => match s with [] => false | _ => true end
-  | JArr l => match l with [] => false | _ => true end
-  | JObj l => match l with [] => false | _ => true end
-  end.
+(* int(s) for a non-empty string of ASCII digits (the only strings the repaired decoders hand to int()):
+   more than sys.get_int_max_str_digits() digits -> ValueError *)
+Definition dstep (acc c : Z) : Z := acc * 10 + (c - 48).
+Definition dval (s : text) : Z := fold_left dstep s 0.
+Definition all_d (s : text) : bool := match s with [] => false | _ => forallb is_d s end.     (* [0-9]+ *)
+Definition int_of_digits (s : text) : res Z :=
+  if int_max_str_digits <? Z.of_nat (length s) then Raise EValue else Ok (dval s).
 Definition is_null (v : json) : bool := match v with JNull => true | _ => false end.
 
 (* ---- the decoders, one per `metadata={"decoder": ...}` *)
-(* bool *)
-Definition dec_bool (v : json) : res bool := Ok (truthy v).
+(* ttconv/config.py decode_bool: anything but a JSON boolean -> ValueError *)
+Definition dec_bool (v : json) : res bool :=
+  match v with JBool b => Ok b | _ => Raise EValue end.
 
 (* imsc/config.py parse_time_expression_syntax: None -> None; `not in` the three values -> ValueError *)
 Definition dec_time_format (v : json) : res (option tfmt) :=
@@ -153,15 +106,21 @@ Definition dec_time_format (v : json) : res (option tfmt) :=
 Definition fraction (n d : Z) : res (Z * Z) :=
   if d =? 0 then Raise EZeroDivision
   else let g := Z.gcd n d in let g := if d <? 0 then - g else g in Ok (n / g, d / g).
-(* IMSCWriterConfiguration.FractionDecoder: [num, den] = value.split('/'); Fraction(int(num), int(den)) *)
+(* IMSCWriterConfiguration.FractionDecoder: _FPS_PATTERN = ([0-9]+)/([0-9]+), fullmatch, only on a str;
+   no match, or int(num) == 0, or int(den) == 0 -> ValueError; Fraction(int(num), int(den)) *)
 Definition dec_fps (v : json) : res (option (Z * Z)) :=
   match v with
   | JNull => Ok None
   | JStr s => match split_on 47 s with
-              | [a; b] => do n <- py_int_of_text a; do d <- py_int_of_text b; do f <- fraction n d; Ok (Some f)
-              | _ => Raise EValue                       (* not enough / too many values to unpack *)
+              | [a; b] => if all_d a && all_d b
+                          then do n <- int_of_digits a;
+                               if n =? 0 then Raise EValue
+                               else do d <- int_of_digits b;
+                                    if d =? 0 then Raise EValue else do f <- fraction n d; Ok (Some f)
+                          else Raise EValue
+              | _ => Raise EValue
               end
-  | _ => Raise EAttribute                               (* no attribute 'split' *)
+  | _ => Raise EValue
   end.
 
 (* scc/config.py TextAlignment.from_value: first member (LEFT, CENTER, RIGHT, AUTO) whose label equals value.lower() *)
@@ -174,18 +133,18 @@ Definition dec_scc_text_align (v : json) : res scc_align :=
   | _ => Raise EAttribute                               (* no attribute 'lower' *)
   end.
 
-(* stl/config.py _decode_start_tc; the patterns are used with re.match (prefix) and the drop-frame pattern's
+(* stl/config.py _decode_start_tc; the two SMPTE patterns are used with re.fullmatch and the drop-frame pattern's
    separators are (:|;|.|,) with an unescaped dot *)
 Definition ndf_match (s : text) : bool :=
   match s with
-  | a :: b :: x :: c :: d :: y :: e :: f :: z :: g :: h :: _ =>
+  | [a; b; x; c; d; y; e; f; z; g; h] =>
       is_d a && is_d b && (x =? 58) && is_d c && is_d d && (y =? 58) && is_d e && is_d f && (z =? 58) && is_d g && is_d h
   | _ => false
   end.
 Definition df_sep (c : Z) : bool := (c =? 58) || (c =? 59) || re_dot c || (c =? 44).
 Definition df_match (s : text) : bool :=
   match s with
-  | a :: b :: x :: c :: d :: y :: e :: f :: z :: g :: h :: _ =>
+  | [a; b; x; c; d; y; e; f; z; g; h] =>
       is_d a && is_d b && df_sep x && is_d c && is_d d && df_sep y && is_d e && is_d f && df_sep z && is_d g && is_d h
   | _ => false
   end.
@@ -200,8 +159,9 @@ Definition dec_start_tc (v : json) : res (option text) :=
 
 (* stl/config.py _decode_font_stack = tuple(parse_font_families(value)); parse_font_families raises ValueError
    iff _FONT_FAMILY_PATTERN.finditer finds nothing, i.e. iff the pattern matches at no position:
-     SQ(.+?)(?<!\\)SQ  |  DQ(.+?)(?<!\\)DQ  |  (?:\\.|[^ SQ DQ , space])(?:\\.|[^ SQ DQ ,])+
-   where SQ is the apostrophe (39) and DQ the quotation mark (34) *)
+     SQ(.+?)(?<!\\)SQ  |  DQ(.+?)(?<!\\)DQ  |  (?:\\.|[^ SQ DQ , space])(?:\\.|[^ SQ DQ ,])*
+   where SQ is the apostrophe (39) and DQ the quotation mark (34); the third alternative matches as soon as
+   its first unit does *)
 Fixpoint quoted_close (q prev : Z) (r : text) : bool :=
   match r with
   | c :: r' => if (c =? q) && negb (prev =? 92) then true else if re_dot c then quoted_close q c r' else false
@@ -213,13 +173,9 @@ Definition unit_esc (s : text) : option text :=                        (* \\. *)
   match s with c0 :: c :: r => if (c0 =? 92) && re_dot c then Some r else None | _ => None end.
 Definition unit1_plain (s : text) : option text :=                     (* none of SQ DQ , space *)
   match s with c :: r => if mem c [39; 34; 44; 32] then None else Some r | [] => None end.
-Definition unit2_plain (s : text) : option text :=                     (* none of SQ DQ , *)
-  match s with c :: r => if mem c [39; 34; 44] then None else Some r | [] => None end.
-Definition has_unit2 (s : text) : bool :=
-  match unit_esc s with Some _ => true | None => match unit2_plain s with Some _ => true | None => false end end.
 Definition noquote_match (s : text) : bool :=
-  (match unit_esc s with Some r => has_unit2 r | None => false end) ||
-  (match unit1_plain s with Some r => has_unit2 r | None => false end).
+  (match unit_esc s with Some _ => true | None => false end) ||
+  (match unit1_plain s with Some _ => true | None => false end).
 Definition font_match_at (s : text) : bool :=
   (match s with 39 :: b => quoted_ok 39 b | _ => false end) ||
   (match s with 34 :: b => quoted_ok 34 b | _ => false end) || noquote_match s.
@@ -232,57 +188,67 @@ Definition dec_font_stack (v : json) : res (option text) :=
   | _ => Raise EType                                    (* expected string or bytes-like object *)
   end.
 
-(* stl/config.py _decode_max_row_count *)
+(* stl/config.py _decode_max_row_count: "MNR" in any case, or an int that is not a bool *)
 Definition dec_max_row_count (v : json) : res (option mrc) :=
   match v with
   | JNull => Ok None
   | JStr s => if text_eqb (py_upper s) (T "MNR") then Ok (Some MrcMNR) else Raise EValue
   | JInt z => Ok (Some (MrcInt z))
-  | JBool b => Ok (Some (MrcBool b))
   | _ => Raise EValue
   end.
 
-(* filters/doc/lcd.py _safe_area_decoder (after commit 2ff15f5): int(s); < 0 or > 30 -> ValueError *)
+(* filters/doc/lcd.py _safe_area_decoder: an int that is not a bool, 0 <= s <= 30; anything else -> ValueError *)
 Definition dec_safe_area (v : json) : res Z :=
-  do z <- py_int v;
-  if (z <? 0) || (30 <? z) then Raise EValue else Ok z.
+  match v with
+  | JInt z => if (z <? 0) || (30 <? z) then Raise EValue else Ok z
+  | _ => Raise EValue
+  end.
 
-(* ttconv/utils.py parse_color (re.match = prefix match; \s and \d are Unicode-aware) *)
+(* ttconv/utils.py parse_color: named colour by lower-cased name; then re.fullmatch of
+     #hh hh hh (hh)?   |   rgb\(\s*(\d+)\s*,\s*(\d+)\s*,\s*(\d+)\s*\)   |   rgba\(\s*(\d+),\s*(\d+)\s*,\s*(\d+)\s*,\s*(\d+)\s*\)
+   (re.ASCII for the two decimal forms); _color_component: int(digits) > 255 -> ValueError *)
 Definition hex2 (a b : Z) : option Z :=
   match hexval a, hexval b with Some x, Some y => Some (16 * x + y) | _, _ => None end.
 Definition match_hex (s : text) : option rgba :=
   match s with
-  | 35 :: r1 :: r2 :: g1 :: g2 :: b1 :: b2 :: rest =>
-      match hex2 r1 r2, hex2 g1 g2, hex2 b1 b2 with
-      | Some r, Some g, Some b =>
-          match rest with
-          | a1 :: a2 :: _ => match hex2 a1 a2 with Some a => Some (r, g, b, a) | None => Some (r, g, b, 255) end
-          | _ => Some (r, g, b, 255)
-          end
-      | _, _, _ => None
-      end
-  | _ => None
+  | c0 :: h =>
+      if c0 =? 35 then
+        match h with
+        | [r1; r2; g1; g2; b1; b2] =>
+            match hex2 r1 r2, hex2 g1 g2, hex2 b1 b2 with Some r, Some g, Some b => Some (r, g, b, 255) | _, _, _ => None end
+        | [r1; r2; g1; g2; b1; b2; a1; a2] =>
+            match hex2 r1 r2, hex2 g1 g2, hex2 b1 b2, hex2 a1 a2 with
+            | Some r, Some g, Some b, Some a => Some (r, g, b, a)
+            | _, _, _, _ => None
+            end
+        | _ => None
+        end
+      else None
+  | [] => None
   end.
 Definition obind {A B} (o : option A) (f : A -> option B) : option B := match o with Some a => f a | None => None end.
 Definition digits1 (s : text) : option (text * text) :=
-  let (d, r) := span is_re_digit s in match d with [] => None | _ => Some (d, r) end.
+  let (d, r) := span is_d s in match d with [] => None | _ => Some (d, r) end.
 (* \s*(\d+)\s* *)
 Definition sp_digits_sp (s : text) : option (text * text) :=
-  obind (digits1 (skip is_re_space s)) (fun dr => Some (fst dr, skip is_re_space (snd dr))).
+  obind (digits1 (skip is_ascii_space s)) (fun dr => Some (fst dr, skip is_ascii_space (snd dr))).
+Definition at_end {A} (a : A) (rest : text) : option A := match rest with [] => Some a | _ => None end.
 Definition match_rgb (s : text) : option (text * text * text) :=
   obind (strip_prefix (T "rgb(") s) (fun s =>
   obind (sp_digits_sp s) (fun d1 => obind (strip_prefix [44] (snd d1)) (fun s =>
   obind (sp_digits_sp s) (fun d2 => obind (strip_prefix [44] (snd d2)) (fun s =>
-  obind (sp_digits_sp s) (fun d3 => obind (strip_prefix [41] (snd d3)) (fun _ =>
-  Some (fst d1, fst d2, fst d3)))))))).
-(* rgba\(\s*(\d+),\s*(\d+)\s*,\s*(\d+)\s*,\s*(\d+)\s*\) — no \s* between the first number and its comma *)
+  obind (sp_digits_sp s) (fun d3 => obind (strip_prefix [41] (snd d3)) (fun rest =>
+  at_end (fst d1, fst d2, fst d3) rest))))))).
+(* no \s* between the first number and its comma *)
 Definition match_rgba (s : text) : option (text * text * text * text) :=
   obind (strip_prefix (T "rgba(") s) (fun s =>
-  obind (digits1 (skip is_re_space s)) (fun d1 => obind (strip_prefix [44] (snd d1)) (fun s =>
+  obind (digits1 (skip is_ascii_space s)) (fun d1 => obind (strip_prefix [44] (snd d1)) (fun s =>
   obind (sp_digits_sp s) (fun d2 => obind (strip_prefix [44] (snd d2)) (fun s =>
   obind (sp_digits_sp s) (fun d3 => obind (strip_prefix [44] (snd d3)) (fun s =>
-  obind (sp_digits_sp s) (fun d4 => obind (strip_prefix [41] (snd d4)) (fun _ =>
-  Some (fst d1, fst d2, fst d3, fst d4)))))))))).
+  obind (sp_digits_sp s) (fun d4 => obind (strip_prefix [41] (snd d4)) (fun rest =>
+  at_end (fst d1, fst d2, fst d3, fst d4) rest))))))))).
+Definition color_component (digits : text) : res Z :=
+  do z <- int_of_digits digits; if 255 <? z then Raise EValue else Ok z.
 Definition parse_color (s : text) : res rgba :=
   match assocT (py_lower s) named_colors with
   | Some c => Ok c
@@ -291,11 +257,11 @@ Definition parse_color (s : text) : res rgba :=
     | Some c => Ok c
     | None =>
       match match_rgb s with
-      | Some (a, b, c) => do r <- py_int_of_text a; do g <- py_int_of_text b; do b' <- py_int_of_text c; Ok (r, g, b', 255)
+      | Some (a, b, c) => do r <- color_component a; do g <- color_component b; do b' <- color_component c; Ok (r, g, b', 255)
       | None =>
         match match_rgba s with
         | Some (a, b, c, d) =>
-            do r <- py_int_of_text a; do g <- py_int_of_text b; do b' <- py_int_of_text c; do a' <- py_int_of_text d; Ok (r, g, b', a')
+            do r <- color_component a; do g <- color_component b; do b' <- color_component c; do a' <- color_component d; Ok (r, g, b', a')
         | None => Raise EValue
         end
       end
@@ -309,7 +275,7 @@ Definition dec_color (v : json) : res (option rgba) :=
   | _ => Raise EValue
   end.
 
-(* ---- the general section has no decoders; its values are interpreted where tt.convert uses them *)
+(* ---- general.log_level and general.document_lang have no decoders; they are interpreted where tt.convert uses them *)
 (* logging._checkLevel (LOGGER.setLevel): int (bool included) as is; a str must be a registered level name *)
 Definition check_level (v : json) : res Z :=
   match v with
@@ -334,11 +300,12 @@ Definition default_imsc : imsc_cfg := Build_imsc_cfg None None.
 Definition default_srt : bool := true.
 Definition default_vtt : vtt_cfg := Build_vtt_cfg false false true.
 Definition default_lcd : lcd_cfg := Build_lcd_cfg 10 false None None.
-Definition default_general : json * json * json := (JStr (T "INFO"), JBool true, JNull).
+Definition default_general : json * bool * json := (JStr (T "INFO"), true, JNull).
 
-Definition parse_general (d : list (text * json)) : res (json * json * json) :=
+(* GeneralConfiguration: log_level and document_lang are kept as given, progress_bar goes through decode_bool *)
+Definition parse_general (d : list (text * json)) : res (json * bool * json) :=
   do ll <- field d "log_level" (fun v => Ok v) (fst (fst default_general));
-  do pb <- field d "progress_bar" (fun v => Ok v) (snd (fst default_general));
+  do pb <- field d "progress_bar" dec_bool (snd (fst default_general));
   do dl <- field d "document_lang" (fun v => Ok v) (snd default_general);
   Ok (ll, pb, dl).
 Definition parse_imsc (d : list (text * json)) : res imsc_cfg :=
@@ -382,9 +349,49 @@ Definition read_config {A} (name : string) (parse : list (text * json) -> res A)
   | Some _ => Raise EAttribute
   end.
 
-(* ------------------------------------------------------------------ tt.py *)
+(* ------------------------------------------------------------------ tt.py: tables *)
 Definition file_types : list (text * ftype) :=
   [(T "ttml", TTML); (T "scc", SCC); (T "srt", SRT); (T "stl", STL); (T "vtt", VTT)].
+Definition all_ftypes : list ftype := [TTML; SCC; SRT; STL; VTT].
+(* the if/elif chains of convert: which module function is called for a file type and which configuration
+   section it is given (None: the call takes no configuration, or the type has no such branch) *)
+Definition reader_table : list (ftype * (string * option string)) :=
+  [(TTML, ("imsc_reader", None)); (SCC, ("scc_reader", Some "scc_reader")); (STL, ("stl_reader", Some "stl_reader"));
+   (SRT, ("srt_reader", None)); (VTT, ("vtt_reader", None))]%string.
+Definition writer_table : list (ftype * (string * option string)) :=
+  [(TTML, ("imsc_writer", Some "imsc_writer")); (SRT, ("srt_writer", Some "srt_writer")); (VTT, ("vtt_writer", Some "vtt_writer"))]%string.
+(* the order of the effects of convert (statement order of its body) *)
+Inductive phase := PhLoadConfig | PhInline | PhFile | PhGeneral | PhProgress | PhLevel | PhItype | PhOtype | PhRead | PhLang
+                | PhFilters | PhWrite.
+Definition phase_order : list phase :=
+  [PhLoadConfig; PhInline; PhFile; PhGeneral; PhProgress; PhLevel; PhItype; PhOtype; PhRead; PhLang; PhFilters; PhWrite].
+Definition phase_name (p : phase) : string :=
+  match p with
+  | PhLoadConfig => "load_config" | PhInline => "inline" | PhFile => "file" | PhGeneral => "general" | PhProgress => "progress"
+  | PhLevel => "level" | PhItype => "itype" | PhOtype => "otype" | PhRead => "read" | PhLang => "lang" | PhFilters => "filters"
+  | PhWrite => "write"
+  end%string.
+(* configuration classes: section name -> fields in dataclass order with the name of their decoder ("" = none) *)
+Definition config_table : list (string * list (string * string)) :=
+  [("general", [("log_level", ""); ("progress_bar", "decode_bool"); ("document_lang", "")]);
+   ("imsc_writer", [("time_format", "parse_time_expression_syntax"); ("fps", "FractionDecoder")]);
+   ("scc_reader", [("text_align", "TextAlignment.from_value")]);
+   ("stl_reader", [("disable_fill_line_gap", "decode_bool"); ("program_start_tc", "_decode_start_tc");
+                   ("disable_line_padding", "decode_bool"); ("font_stack", "_decode_font_stack");
+                   ("max_row_count", "_decode_max_row_count")]);
+   ("srt_writer", [("text_formatting", "decode_bool")]);
+   ("vtt_writer", [("line_position", "decode_bool"); ("text_align", "decode_bool"); ("cue_id", "decode_bool")]);
+   ("lcd", [("safe_area", "_safe_area_decoder"); ("preserve_text_align", "decode_bool"); ("color", "_color_decoder");
+            ("bg_color", "_color_decoder")])]%string.
+(* argparse: sub-commands of `tt`, option strings of `convert` with their destination;
+   every destination is `store` with one argument, except `filter` (append, default []) and help *)
+Definition subcommands : list text := [T "convert"].
+Definition option_strings : list (text * dest) :=
+  [(T "-h", DHelp); (T "--help", DHelp); (T "-i", DInput); (T "--input", DInput); (T "-o", DOutput); (T "--output", DOutput);
+   (T "--itype", DItype); (T "--otype", DOtype); (T "--filter", DFilter); (T "--config", DConfig); (T "--config_file", DConfigFile)].
+Definition required_dests : list dest := [DInput; DOutput].
+
+(* ------------------------------------------------------------------ tt.py: functions *)
 (* FileTypes(value): lookup by value, ValueError otherwise *)
 Definition file_type_of_value (v : text) : res ftype :=
   match assocT v file_types with Some t => Ok t | None => Raise EValue end.
@@ -434,12 +441,11 @@ Fixpoint apply_filters (names : list text) (data : option json) : res (list filt
       end
   end.
 
+(* the conversion plan: convert with the reader, filter and writer calls left out (they are put back in `run_convert`) *)
 Definition convert (o : options) (inl : inline_src) (fil : file_src) : res plan_t :=
   do data <- load_config inl fil;
   do g <- read_config "general" parse_general data;
-  let progress := match g with
-                  | Some (_, pb, _) => if is_null pb then None else Some (truthy pb)
-                  | None => None end in
+  let progress := match g with Some (_, pb, _) => Some pb | None => None end in
   do level <- match g with
               | Some (ll, _, _) => if is_null ll then Ok None else do z <- check_level ll; Ok (Some z)
               | None => Ok None end;
@@ -469,7 +475,7 @@ Definition plan (a : argv) (inl : inline_src) (fil : file_src) : outcome :=
   match a with
   | NoSubcommand => OHelp
   | Subcommand n o =>
-      if text_eqb n (T "convert")
+      if existsb (text_eqb n) subcommands
       then match convert o inl fil with Ok p => OPlan p | Raise e => OError e end
       else OError EExitUsage
   end.
@@ -480,14 +486,182 @@ Definition output_action (a : argv) (r : outcome) : option (text * writer) :=
   | _, _ => None
   end.
 
+(* ------------------------------------------------------------------ argparse, as far as `tt` uses it.
+   Transcribed: ArgumentParser.parse_args on the `convert` sub-parser for token lists in which an option is written
+   `flag value` (two tokens) or `flag=value` (one token) with the flag spelled out in full; `store` keeps the last
+   value, `append` collects; a flag without a value, a value token that starts with '-', a stray positional token,
+   an unknown flag, a missing required option are usage errors (exit status 2); -h/--help print the help and
+   exit 0 as soon as they are met.  NOT transcribed (outside every theorem's and the generator's domain): unique-prefix
+   abbreviations of long flags (allow_abbrev), `-ivalue`, `--`, value tokens that start with '-' but look like
+   negative numbers or contain a space. *)
+Definition starts_dash (t : text) : bool := match t with c :: _ => c =? 45 | [] => false end.
+Definition lookup_flag (t : text) : option dest := assocT t option_strings.
+(* str.split('=', 1) when '=' occurs *)
+Fixpoint split_eq (t : text) : option (text * text) :=
+  match t with
+  | [] => None
+  | c :: r => if c =? 61 then Some ([], r)
+              else match split_eq r with Some (a, b) => Some (c :: a, b) | None => None end
+  end.
+Definition empty_ns : namespace := Build_namespace None None None None [] None None.
+Definition ns_set (d : dest) (v : text) (n : namespace) : namespace :=
+  match d with
+  | DHelp => n
+  | DInput => Build_namespace (Some v) (n_output n) (n_itype n) (n_otype n) (n_filters n) (n_config n) (n_config_file n)
+  | DOutput => Build_namespace (n_input n) (Some v) (n_itype n) (n_otype n) (n_filters n) (n_config n) (n_config_file n)
+  | DItype => Build_namespace (n_input n) (n_output n) (Some v) (n_otype n) (n_filters n) (n_config n) (n_config_file n)
+  | DOtype => Build_namespace (n_input n) (n_output n) (n_itype n) (Some v) (n_filters n) (n_config n) (n_config_file n)
+  | DFilter => Build_namespace (n_input n) (n_output n) (n_itype n) (n_otype n) (n_filters n ++ [v]) (n_config n) (n_config_file n)
+  | DConfig => Build_namespace (n_input n) (n_output n) (n_itype n) (n_otype n) (n_filters n) (Some v) (n_config_file n)
+  | DConfigFile => Build_namespace (n_input n) (n_output n) (n_itype n) (n_otype n) (n_filters n) (n_config n) (Some v)
+  end.
+Inductive pres := PrHelp | PrUsage | PrOk (n : namespace) (extras : bool).
+Fixpoint parse_opts (toks : list text) (n : namespace) (extras : bool) : pres :=
+  match toks with
+  | [] => PrOk n extras
+  | t :: r =>
+      if negb (starts_dash t) then parse_opts r n true                 (* stray positional: "unrecognized arguments" at the end *)
+      else match lookup_flag t with
+           | Some DHelp => PrHelp
+           | Some d => match r with
+                       | v :: r' => if starts_dash v then PrUsage else parse_opts r' (ns_set d v n) extras
+                       | [] => PrUsage                                 (* expected one argument *)
+                       end
+           | None => match split_eq t with
+                     | Some (f, v) => match lookup_flag f with
+                                      | Some DHelp => PrUsage          (* ignored explicit argument *)
+                                      | Some d => parse_opts r (ns_set d v n) extras
+                                      | None => parse_opts r n true
+                                      end
+                     | None => parse_opts r n true                      (* unknown flag *)
+                     end
+           end
+  end.
+Inductive cmdline := CHelp | CUsage | CConvert (o : options) (config config_file : option text).
+Definition parse_convert (toks : list text) : cmdline :=
+  match parse_opts toks empty_ns false with
+  | PrHelp => CHelp
+  | PrUsage => CUsage
+  | PrOk n extras =>
+      match n_input n, n_output n with
+      | Some i, Some o => if extras then CUsage
+                          else CConvert (Build_options i o (n_itype n) (n_otype n) (n_filters n)) (n_config n) (n_config_file n)
+      | _, _ => CUsage                                                  (* the following arguments are required *)
+      end
+  end.
+(* main(argv): no token -> print_help; first token = sub-command *)
+Definition parse_main (toks : list text) : cmdline :=
+  match toks with
+  | [] => CHelp
+  | sub :: rest => if existsb (text_eqb sub) subcommands then parse_convert rest else CUsage
+  end.
+(* the environment of a run: what json.loads makes of a --config string (None: JSONDecodeError) and what opening and
+   json.load-ing a --config_file path gives *)
+Definition inline_of (json_of : text -> option json) (c : option text) : inline_src :=
+  match c with None => IAbsent | Some t => match json_of t with Some j => IGiven j | None => IMalformed end end.
+Definition file_of (files : text -> file_src) (c : option text) : file_src :=
+  match c with None => FAbsent | Some p => files p end.
+Definition plan_tokens (json_of : text -> option json) (files : text -> file_src) (toks : list text) : outcome :=
+  match parse_main toks with
+  | CHelp => OHelp
+  | CUsage => OError EExitUsage
+  | CConvert o c cf => match convert o (inline_of json_of c) (file_of files cf) with Ok p => OPlan p | Raise e => OError e end
+  end.
+
+(* ------------------------------------------------------------------ the run, with the reader, filters and writer put back.
+   `run_convert` follows the body of tt.convert statement by statement; every call of a reader, filter or writer and
+   every effect visible outside is logged, and the log survives an exception.  What the readers, filters and writers
+   compute is not modelled here: they are the section variables, and may raise. *)
+Section Exec.
+  Variables doc bytes : Type.
+  Variable read_doc : reader -> text -> res doc.             (* <fmt>_reader.to_model on the input file *)
+  Variable set_lang : text -> doc -> doc.                    (* model.set_lang *)
+  Variable run_filter : filter_app -> doc -> res doc.        (* doc_filter.process(model) *)
+  Variable write_doc : writer -> doc -> res bytes.           (* <fmt>_writer.from_model, serialised *)
+
+  Definition comp (A : Type) : Type := list event -> list event * res A.
+  Definition ret {A} (a : A) : comp A := fun l => (l, Ok a).
+  Definition lift {A} (r : res A) : comp A := fun l => (l, r).
+  Definition emit (e : event) : comp unit := fun l => (l ++ [e], Ok tt).
+  Definition cbind {A B} (c : comp A) (k : A -> comp B) : comp B :=
+    fun l => match c l with (l', Ok a) => k a l' | (l', Raise e) => (l', Raise e) end.
+  Definition cthen {B} (c : comp unit) (k : comp B) : comp B := cbind c (fun _ => k).
+
+  Definition run_config (inl : inline_src) (fil : file_src) : comp (option json * option (json * bool * json)) :=
+    cbind (lift (load_config inl fil)) (fun data =>
+    cbind (lift (read_config "general" parse_general data)) (fun g =>
+    cthen (match g with Some (_, pb, _) => emit (EvProgress pb) | None => ret tt end)
+    (cthen (match g with
+            | Some (ll, _, _) => if is_null ll then ret tt else cbind (lift (check_level ll)) (fun z => emit (EvLevel z))
+            | None => ret tt end)
+    (ret (data, g))))).
+  Definition run_types (o : options) : comp (ftype * ftype) :=
+    cbind (lift (get_file_type (o_itype o) (splitext (o_input o)))) (fun rt =>
+    cbind (lift (get_file_type (o_otype o) (splitext (o_output o)))) (fun wt => ret (rt, wt))).
+  Definition call_reader (r : reader) (path : text) : comp doc :=
+    cthen (emit (EvRead r path)) (lift (read_doc r path)).
+  Definition run_read (rt : ftype) (data : option json) (path : text) : comp doc :=
+    match rt with
+    | TTML => call_reader RdTtml path
+    | SCC => cbind (lift (read_config "scc_reader" parse_scc data)) (fun c => call_reader (RdScc c) path)
+    | STL => cbind (lift (read_config "stl_reader" parse_stl data)) (fun c => call_reader (RdStl c) path)
+    | SRT => call_reader RdSrt path
+    | VTT => call_reader RdVtt path
+    end.
+  Definition run_lang (g : option (json * bool * json)) (d : doc) : comp doc :=
+    match g with
+    | Some (_, _, dl) => if is_null dl then ret d
+                         else cbind (lift (check_lang dl)) (fun s => cthen (emit (EvLang s)) (ret (set_lang s d)))
+    | None => ret d
+    end.
+  Fixpoint run_filters (names : list text) (data : option json) (d : doc) : comp doc :=
+    match names with
+    | [] => ret d
+    | n :: r =>
+        match get_filter_by_name n with
+        | None => run_filters r data d
+        | Some FkLcd =>
+            cbind (lift (read_config "lcd" parse_lcd data)) (fun c =>
+            let fa := FLcd (match c with Some c => c | None => default_lcd end) in
+            cthen (emit (EvFilter fa)) (cbind (lift (run_filter fa d)) (fun d' => run_filters r data d')))
+        end
+    end.
+  Definition call_writer (w : writer) (d : doc) (path : text) : comp (text * bytes) :=
+    cthen (emit (EvWrite w)) (cbind (lift (write_doc w d)) (fun b => cthen (emit (EvOutput path)) (ret (path, b)))).
+  Definition run_write (wt : ftype) (data : option json) (d : doc) (path : text) : comp (text * bytes) :=
+    match wt with
+    | TTML => cbind (lift (read_config "imsc_writer" parse_imsc data)) (fun c => call_writer (WrTtml c) d path)
+    | SRT => cbind (lift (read_config "srt_writer" parse_srt data)) (fun c => call_writer (WrSrt c) d path)
+    | VTT => cbind (lift (read_config "vtt_writer" parse_vtt data)) (fun c => call_writer (WrVtt c) d path)
+    | SCC | STL => lift (Raise EExitUnsupported)
+    end.
+  Definition run_convert (o : options) (inl : inline_src) (fil : file_src) : comp (text * bytes) :=
+    cbind (run_config inl fil) (fun dg =>
+    cbind (run_types o) (fun tw =>
+    cbind (run_read (fst tw) (fst dg) (o_input o)) (fun d =>
+    cbind (run_lang (snd dg) d) (fun d =>
+    cbind (run_filters (o_filters o) (fst dg) d) (fun d =>
+    run_write (snd tw) (fst dg) d (o_output o)))))).
+
+  Definition run_tokens (json_of : text -> option json) (files : text -> file_src) (toks : list text) : list event * final bytes :=
+    match parse_main toks with
+    | CHelp => ([], FHelp)
+    | CUsage => ([], FError EExitUsage)
+    | CConvert o c cf =>
+        match run_convert o (inline_of json_of c) (file_of files cf) [] with
+        | (l, Ok (p, b)) => (l, FDone p b)
+        | (l, Raise e) => (l, FError e)
+        end
+    end.
+End Exec.
+
 (* ------------------------------------------------------------------ one key at a time (acceptance table, probes) *)
 Definition copt {A} (f : A -> cval) (o : option A) : cval := match o with Some a => f a | None => CNone end.
-(* the value the conversion ends up using for key k when the JSON gives v (for the general keys: after
-   setLevel / `not progress_bar` / set_lang; explicit null = "leave as is") *)
+(* the value the conversion ends up using for key k when the JSON gives v (for general.log_level and
+   general.document_lang: after setLevel / set_lang; an explicit null there = "leave as is") *)
 Definition decode (k : key) (v : json) : res cval :=
   match k with
   | KLogLevel => if is_null v then Ok CNone else do z <- check_level v; Ok (CInt z)
-  | KProgressBar => if is_null v then Ok CNone else Ok (CBool (truthy v))
   | KDocumentLang => if is_null v then Ok CNone else do s <- check_lang v; Ok (CText s)
   | KTimeFormat => do x <- dec_time_format v; Ok (copt CTfmt x)
   | KFps => do x <- dec_fps v; Ok (copt (fun f => CFrac (fst f) (snd f)) x)
@@ -497,7 +671,7 @@ Definition decode (k : key) (v : json) : res cval :=
   | KMaxRowCount => do x <- dec_max_row_count v; Ok (copt CMrc x)
   | KSafeArea => do x <- dec_safe_area v; Ok (CInt x)
   | KColor | KBgColor => do x <- dec_color v; Ok (copt (fun c => match c with (r, g, b, a) => CColor r g b a end) x)
-  | KFillLineGap | KLinePadding | KTextFormatting | KLinePosition | KVttTextAlign | KCueId | KPreserveTextAlign =>
+  | KProgressBar | KFillLineGap | KLinePadding | KTextFormatting | KLinePosition | KVttTextAlign | KCueId | KPreserveTextAlign =>
       do x <- dec_bool v; Ok (CBool x)
   end.
 Definition accepts (k : key) (v : json) : bool := is_ok (decode k v).
